@@ -373,11 +373,22 @@ def run_end_to_end(ctx, prop):
                 pop0 = []
                 for k in range(psize):
                     v = list(vals)
-                    v[0] = [-1.0, -2.0][k % 2]
+                    v[0:3] = [[-1.0, -2.0][k % 2]] * 3  # all three angles of the first gate (theta, phi, lambda in Qiskit's name order)
                     if k >= 2:
                         v[-1] = float(k)
                     pop0.append(EVQEIndividual(base.n_qubits, base.layers, tuple(v)))
-                solver.configuration.population_initializer = lambda n, pop0=pop0: EVQEPopulation(tuple(pop0), None, None, None)
+                # speciation and selection only: the first evaluation sees the hand-made population unchanged
+                from queasars.minimum_eigensolvers.evqe.evolutionary_algorithm.selection import EVQESelection
+                from queasars.minimum_eigensolvers.evqe.evolutionary_algorithm.speciation import EVQESpeciation
+
+                bconf = EvolvingAnsatzMinimumEigensolverConfiguration(
+                    population_initializer=lambda n, pop0=pop0: EVQEPopulation(tuple(pop0), None, None, None),
+                    evolutionary_operators=[EVQESpeciation(conf.speciation_genetic_distance_threshold, seed),
+                                            EVQESelection(conf.selection_alpha_penalty, conf.selection_beta_penalty, tournament, conf.tournament_size, seed + 1)],
+                    configured_sampler=ConfiguredSamplerV2(sampler=sampler, shots=SHOTS), configured_estimator=ConfiguredEstimatorV2(estimator=estimator, precision=None),
+                    pass_manager=None, max_generations=max_gen, max_circuit_evaluations=None, termination_criterion=None, parallel_executor=ex,
+                    mutually_exclusive_primitives=False)
+                solver = EvolvingAnsatzMinimumEigensolver(bconf)
             try:
                 res = solver.compute_minimum_eigenvalue_with_initial_state(op, aux, init)
             except Exception as e:  # noqa: BLE001
